@@ -237,7 +237,7 @@ MIXED_CALLS = (('read_runtime_data', ()), ('read_setting', ('grid_export_limit',
 TX_POLICIES = ('echo', 'const-1', 'zero', 'previous', 'plus-1', 'ffff', 'ffff-then-echo')
 
 
-def run_tx_policy(policy, ka):
+def run_tx_policy(policy, ka, exc=0):
     """The ids the library puts on the wire do not depend on what the inverter puts into the transaction-id field of its
     answers (the library does not look at it: GoodWe firmware is known to fill the MBAP header unreliably).  Twelve
     requests of alternating kinds, every third transmission lost (retransmission), answers carrying ids by `policy`."""
@@ -253,6 +253,10 @@ def run_tx_policy(policy, ka):
         if k % 3 == 2:
             return []
         fn = rq['fn']
+        if exc and k % 3 == 1:
+            # every other answered transmission is refused with exception code `exc` (whatever the library does next -
+            # give up or transmit again - the next transmission carries another id)
+            return [(D0, ('data', wire.mbap(req[:2], rq['unit'], bytes([fn | 0x80, exc]))))]
         pdu = bytes([3, 2 * rq['count']]) + bytes(2 * rq['count']) if fn == 3 else \
             bytes([6]) + struct.pack('>HH', rq['reg'], rq['value']) if fn == 6 else bytes([16]) + struct.pack('>HH', rq['reg'], rq['count'])
         tx = {'echo': rq['tx'], 'const-1': 1, 'zero': 0, 'previous': seen[-2] if len(seen) > 1 else 0x7777, 'plus-1': (rq['tx'] + 1) & 0xFFFF,
@@ -485,12 +489,15 @@ def run(tier, seed, rep):
                     novl += k
                     for clause, cause in vio:
                         rep.add(f'{clause}/{tr}/ka={int(ka)}', clause, dict(part='unit-policy', transport=tr, ka=ka, unit=unit, src=src), dict(cause=cause))
-    for policy in TX_POLICIES:
+    for policy, exc in [(p_, 0) for p_ in TX_POLICIES] + [('echo', c) for c in (1, 2, 3, 4, 5, 6, 7, 8, 10, 11, 0x55)]:
         for ka in (False, True):
-            vio, k, _ = run_tx_policy(policy, ka)
+            vio, k, _ = run_tx_policy(policy, ka, exc)
             novl += k
             for clause, cause in vio:
-                rep.add(f'{clause}/ka={int(ka)}', clause.split('/')[0], dict(part='tx-policy', policy=policy, ka=ka), dict(cause=cause))
+                if exc:
+                    clause = clause.replace('answers-carry-other-ids', 'requests-refused-with-an-exception-code')
+                    cause += f' (exception code {exc})'
+                rep.add(f'{clause}/ka={int(ka)}', clause.split('/')[0], dict(part='tx-policy', policy=policy, ka=ka, exc=exc), dict(cause=cause))
     for tr in ('udp', 'tcp'):
         for ka in (False, True):
             for steps in (0, 1, 3):
@@ -565,7 +572,7 @@ def replay(r):
         vio, k = run_unit_policy(r['transport'], r['ka'], r['unit'], r['src'])
         return dict(transmissions=k, violations=vio)
     if r['part'] == 'tx-policy':
-        vio, k, oc = run_tx_policy(r['policy'], r['ka'])
+        vio, k, oc = run_tx_policy(r['policy'], r['ka'], r.get('exc', 0))
         return dict(transmissions=k, outcomes=oc, violations=vio)
     if r['part'] == 'overlap-mixed':
         vio, k = run_overlap_mixed(r['transport'], r['ka'], r['steps'], tuple((c[0], tuple(c[1])) for c in r['calls']))
